@@ -39,6 +39,8 @@ type Env struct {
 	liteRtype          types.Type // internal/reflectlite.rtype
 	liteValue          types.Type
 
+	bottomFrames []SynthFrame
+
 	mu        sync.Mutex
 	initSkips map[string]int
 }
